@@ -88,9 +88,12 @@ pub fn execute_and_observe(ops: &[Op], run: &Run, naming: u32, hash_seed: u64, t
     }
 }
 
-fn execute_and_observe_n<N: Analysis<LS>>(eg: EGraph<LS, N>, ops: &[Op], run: &Run, naming: u32, hash_seed: u64, terms: &[Tm], queries: &[Query]) -> Result<Observed, crate::exec::PanicInfo> {
+fn execute_and_observe_n<N: Analysis<LS> + Clone>(eg: EGraph<LS, N>, ops: &[Op], run: &Run, naming: u32, hash_seed: u64, terms: &[Tm], queries: &[Query]) -> Result<Observed, crate::exec::PanicInfo> {
     seam::set_hash_seed(hash_seed);
     let mut s: Sess<LS, N> = Sess::new(eg, naming);
+        if run.get("companion") != 0 {
+            s.enable_companion();
+        }
     for op in ops {
         catch_op(|| exec_sess_op(&mut s, op, run))?;
     }
